@@ -34,7 +34,9 @@ Definition fixed  := mkCfg true.    (* with the proposed repair *)
 (* ---------------------------------------------------------------- types *)
 Definition T_RAW := 0.  Definition T_LINCOM := 1.  Definition T_LINTERP := 2.
 Definition T_BIT := 3.  Definition T_MULTIPLY := 4. Definition T_PHASE := 5.
-Definition T_INDEX := 6. Definition T_SINDIR := 14.
+Definition T_INDEX := 6. Definition T_POLYNOM := 7. Definition T_SBIT := 8. Definition T_DIVIDE := 9.
+Definition T_RECIP := 10. Definition T_WINDOW := 11. Definition T_MPLEX := 12. Definition T_INDIR := 13.
+Definition T_SINDIR := 14.
 Definition T_CONST := 15. Definition T_CARRAY := 16. Definition T_STRING := 17.
 Definition T_SARRAY := 18.
 Definition S_VECTOR := 19. Definition S_SCALAR := 20. Definition S_ALIAS := 21.
@@ -262,6 +264,22 @@ Definition constants (s : state) (parent : option name) : option (list Z) :=
   | None => None
   end.
 
+(* values of the listed entries of scalar type ty (gd_[m]strings, gd_[m]carrays, gd_[m]sarrays) *)
+Definition values_of (s : state) (parent : option name) (ty : N) : option (list Z) :=
+  match find_parent (s_ents s) parent with
+  | Some par =>
+      Some (map (fun e => match dealias (s_ents s) e with Some t => e_val t | None => 0%Z end)
+                (sel_members (s_ents s) par ty 0))
+  | None => None
+  end.
+
+(* gd_match_entries(D, NULL, fragment, type, flags): every entry, metafields included, of one fragment *)
+Definition match_entries (s : state) (frag : option N) (sel flags : N) : list name :=
+  let hid := N.testbit flags 0 in
+  let noal := N.testbit flags 1 in
+  map e_name (filter (fun e => (match frag with Some f => e_frag e =? f | None => true end) &&
+                               list_entry (s_ents s) true hid noal sel e) (s_ents s)).
+
 Definition live_name (l : list entry) (c : celem) : bool :=
   let '(id, nid, _) := c in
   match by_id l id with Some e => e_nid e =? nid | None => false end.
@@ -376,9 +394,10 @@ Definition new_entry (s : state) (nm : name) (ty frag : N) (hid meta : bool)
   mkE nm (s_next s) (s_next s + 1) ty frag hid meta None [] (map (fun i => (i, None)) ins) scs None false v [].
 
 (* number of inputs / scalars the C code looks at, by type *)
-Definition n_ins (ty : N) : nat :=
-  if ty =? T_LINCOM then 3%nat else if ty =? T_MULTIPLY then 2%nat
-  else if (ty =? T_BIT) || (ty =? T_PHASE) || (ty =? T_LINTERP) then 1%nat else 0%nat.
+Definition two_in (ty : N) : bool :=
+  (ty =? T_MULTIPLY) || (ty =? T_DIVIDE) || (ty =? T_WINDOW) || (ty =? T_MPLEX) || (ty =? T_INDIR) || (ty =? T_SINDIR).
+Definition one_in (ty : N) : bool :=
+  (ty =? T_LINTERP) || (ty =? T_BIT) || (ty =? T_PHASE) || (ty =? T_POLYNOM) || (ty =? T_SBIT) || (ty =? T_RECIP).
 
 (* the tail of _GD_Add once the parent and the full name are known *)
 Definition add_go (s : state) (ty : N) (hid : bool) (ins : list name) (scs : list (option name)) (v : Z)
@@ -510,9 +529,13 @@ Definition op_alias (s : state) (parent : option name) (nm tgt : name) (frag : N
 (* order in which _GD_ClearDerived visits the inputs *)
 Definition in_order (ty : N) (n : nat) : list nat :=
   if ty =? T_LINCOM then seq 0 (Nat.min n 3)
-  else if ty =? T_MULTIPLY then [1%nat; 0%nat]
-  else if (ty =? T_BIT) || (ty =? T_PHASE) || (ty =? T_LINTERP) then [0%nat]
+  else if two_in ty then [1%nat; 0%nat]
+  else if one_in ty then [0%nat]
   else [].
+
+(* inputs visited by the "vector" switch of _GD_UpdateInputs: INDIR/SINDIR only input 0 there *)
+Definition vec_order (ty : N) (n : nat) : list nat :=
+  if (ty =? T_INDIR) || (ty =? T_SINDIR) then [0%nat] else in_order ty n.
 
 Fixpoint set_nth {A} (n : nat) (x : A) (l : list A) : list A :=
   match n, l with
@@ -707,10 +730,14 @@ Definition update_inputs (meta : bool) (rty : N) (old new : name) (flags : N) (e
   let sc := is_scalar_ty rty || (rty =? T_ALIAS) in
   let upd_sc := negb meta || sc in
   let upd_vec := negb meta || negb sc in
-  let e1 := if upd_vec then ren_ins (rename_code meta old new updb) (in_order (e_ty e) (length (e_ins e))) e else e in
+  let e1 := if upd_vec then ren_ins (rename_code meta old new updb) (vec_order (e_ty e) (length (e_ins e))) e else e in
   let e2 := if upd_sc && negb (is_alias e1) then
               set_scs e1 (map (fun o => match o with Some cd => Some (rename_code meta old new updb cd) | None => None end) (e_scs e1))
             else e1 in
+  (* the "scalar" switch: the index input of INDIR / SINDIR *)
+  let e2 := if ((e_ty e =? T_INDIR) && (negb meta || (rty =? T_CARRAY))) ||
+               ((e_ty e =? T_SINDIR) && (negb meta || (rty =? T_SARRAY)))
+            then ren_ins (rename_code meta old new updb) [1%nat] e2 else e2 in
   if negb dangle && is_alias e2 then
     set_ins e2 (map (fun p : name * option N => (rename_code meta old new true (fst p), snd p)) (e_ins e2))
   else e2.
